@@ -33,7 +33,13 @@ def serverOp (args : List String) : String :=
   | ["run", tls, auth, ms, imm, verd, b64t, plaint, buf, segs, tlss] =>
     match parseOptNat ms, ofHex buf, parseBytesList segs with
     | some maxSize, some b, some sg =>
-      let cfg : Server.Cfg := { startTls := tls == "1", auth := auth == "1", maxSize := maxSize, immediateTls := imm == "1" }
+      -- `imm` is `0`/`1`, optionally followed by `:` and the comma-separated hex names of custom commands
+      let immParts := imm.splitOn ":"
+      let customs : List Bytes := match immParts with
+        | [_, cs] => (cs.splitOn ",").filterMap ofHex
+        | _ => []
+      let cfg : Server.Cfg := { startTls := tls == "1", auth := auth == "1", maxSize := maxSize,
+                                immediateTls := immParts.head? == some "1", custom := customs }
       let vl : List (Option Nat) := if verd == "-" then [] else (verd.splitOn ",").map String.toNat?
       let v : Server.Verdicts := fun n => match vl[n]? with | some x => x | none => none
       let b64Tab := parseHexTable b64t
